@@ -26,7 +26,7 @@ def salts(tier):
     return 2 if tier == 'quick' else 8
 
 def plan(tier):
-    return dict(runs=1280 if tier == 'quick' else 24000, timeout=300 if tier == "quick" else 5400)
+    return dict(runs=1280 if tier == 'quick' else 24000, timeout=900 if tier == "quick" else 10800)
 
 def family_case(ctx_seed, fam):
     rng = seeds.rng(ctx_seed, ID, 'family', fam)
